@@ -400,7 +400,7 @@ pub fn run_shard(ctx: &mut ShardCtx) {
         ctx.witnesses(&replay);
     }
     let excluded: Vec<String> = ctx.excludes.keys().cloned().collect();
-    let n = ctx.share(ctx.tier.pick(160_000, 6_000_000));
+    let n = ctx.share(ctx.tier.pick(2_000_000, 40_000_000));
     let strat = gen_case().prop_map(move |mut c| {
         c.excluded = excluded.clone();
         c
